@@ -579,7 +579,7 @@ var trustedBase = []string{
 
 var baseAssumptions = []string{
 	"callers outside the repository pass slices that do not alias library-internal arrays",
-	"memory model: allocations are disjoint; object ids < 2^16, addresses < 2^47 (modelling device)",
+	"memory model: allocations are disjoint; object ids < 2^16, heap addresses < 2^47, arrays embedded in objects from 2^52 (modelling device)",
 }
 
 type asmInfoT struct {
